@@ -300,4 +300,82 @@ theorem entry_notify (s : Server) (hcustom : s.custom = Option.none) (hpool : s.
   simp
 
 
+/- ---------- the same two normal forms for ANY behaviour of the dispatcher ---------- -/
+
+/-- The dispatcher on a name that denotes a callable: the `try` block around the call. -/
+theorem runDispatcher_resolves (s : Server) (hcustom : s.custom = Option.none) (m : String) (q : PyVal)
+    (t : Target) (f : Callable) (hr : resolves s.reg m = some (t, f)) :
+    runDispatcher s (.str m) q = (.ok (invoke t (some f) (.str m) q).1, (invoke t (some f) (.str m) q).2) := by
+  unfold resolves at hr
+  simp only [runDispatcher, hcustom, dispatch]
+  cases hf : s.reg.funcs.lookup m with
+  | some c =>
+    simp only [hf, Option.some.injEq, Prod.mk.injEq] at hr
+    obtain ⟨rfl, rfl⟩ := hr
+    simp
+  | none =>
+    simp only [hf] at hr
+    cases hi : s.reg.inst with
+    | none => simp [hi] at hr
+    | some inst =>
+      simp only [hi] at hr
+      cases hd : inst.dispatch with
+      | some d => simp [hd] at hr
+      | none =>
+        simp only [hd] at hr
+        cases hres : resolveDotted inst m with
+        | none => simp [hres] at hr
+        | some a =>
+          simp only [hres, Option.map_eq_some_iff, Prod.mk.injEq] at hr
+          obtain ⟨c, hc, rfl, rfl⟩ := hr
+          simp [resolveAndInvoke, hres, hc, hd]
+
+/-- A call request whatever the dispatcher does with it (`r`, `eff`): the entry is answered by the
+    response built from `r` and causes exactly `eff`. -/
+theorem entry_call_disp (s : Server)
+    {kvs : List (PyVal × PyVal)} {m fresh : String} {ver : Nat} {p : PyVal}
+    (sh : ReqShape kvs m (some (.str fresh)) ver p) (hne : m ≠ "") (hfresh : fresh ≠ "")
+    (hpt : p.isTuple = true ∨ p.isDict = true ∨ p.isList = true)
+    (r : PyM DispResult) (eff : List Effect)
+    (hd : runDispatcher s (.str m) (serverParams p) = (r, eff)) :
+    entryNF s (.dict (normaliseKVs kvs)) =
+      (.ok (some (respOf s (requestConfig s.cfg (decide (ver ≥ 20))) (.str fresh) r)), eff) := by
+  obtain ⟨hm, hid, ⟨po, hpo, hget, hpt'⟩, hj⟩ := parsed_lookups sh hpt
+  have hidk : hasKeyStr "id" (normaliseKVs kvs) = true := by simp [hasKeyStr, hid]
+  rw [entryNF, validateNF_of_lookups _ m po hm hne hpo hpt' (Or.inr hidk)]
+  have hnotif : notifNF (withParams (normaliseKVs kvs)) = false := by
+    simp [notifNF, lookupStr_withParams "id" (by decide), hid, normalise, notifIds, pyEq, numEq, asInt?, hfresh]
+  simp only [singleNF, hnotif, hasKeyStr_withParams "jsonrpc" (by decide), hj,
+    lookupStr_withParams "id" (by decide), hid, Option.map_some, normalise, Option.getD_some, hget, hd]
+  cases s.pool <;> simp
+
+/-- A notification (no pool) whatever the dispatcher does with it: no response, exactly `eff`. -/
+theorem entry_notify_disp (s : Server) (hpool : s.pool = .absent)
+    {kvs : List (PyVal × PyVal)} {m : String} {ver : Nat} {p : PyVal}
+    (sh : ReqShape kvs m (if ver ≥ 20 then Option.none else some .none) ver p) (hne : m ≠ "")
+    (hpt : p.isTuple = true ∨ p.isDict = true ∨ p.isList = true)
+    (r : PyM DispResult) (eff : List Effect)
+    (hd : runDispatcher s (.str m) (serverParams p) = (r, eff)) :
+    entryNF s (.dict (normaliseKVs kvs)) = (.ok Option.none, eff) := by
+  obtain ⟨hm, hid, ⟨po, hpo, hget, hpt'⟩, hj⟩ := parsed_lookups sh hpt
+  have hv : hasKeyStr "jsonrpc" (normaliseKVs kvs) = true ∨ hasKeyStr "id" (normaliseKVs kvs) = true := by
+    by_cases h20 : ver ≥ 20
+    · left; simp [hj, h20]
+    · right; simp [hasKeyStr, hid, h20]
+  rw [entryNF, validateNF_of_lookups _ m po hm hne hpo hpt' hv]
+  have hnotif : notifNF (withParams (normaliseKVs kvs)) = true := by
+    simp only [notifNF, lookupStr_withParams "id" (by decide), hid]
+    by_cases h20 : ver ≥ 20 <;> simp [h20, normalise, notifIds, pyEq]
+  simp only [singleNF, hnotif, hpool, hget, hd]
+  simp
+
+/-- No function is registered under the name and there is no instance, or the instance (without a
+    `_dispatch` of its own) does not resolve the dotted name: what the server calls an unknown method. -/
+def unknownName (reg : Registry) (name : String) : Bool :=
+  (reg.funcs.lookup name).isNone &&
+    (match reg.inst with
+     | Option.none => true
+     | some inst => inst.dispatch.isNone && (resolveDotted inst name).isNone)
+
+
 end JRV.EndToEnd
